@@ -147,12 +147,13 @@ def run(ctx):
             base = expo = None
             if isinstance(x, ast.BinOp) and isinstance(x.op, ast.Pow):
                 base, expo = x.left, x.right
-            elif isinstance(x, ast.Call) and txt(x.func) in ("pow", "math.pow") and len(x.args) == 2:
+            elif isinstance(x, ast.Call) and (txt(x.func) in ("pow", "math.pow") or prog.external(q.module, x.func) in ("math.pow", "numpy.power", "numpy.float_power")) and len(x.args) == 2:
                 base, expo = x.args
             if base is None:
                 continue
-            if txt(x.func) == "math.pow" if isinstance(x, ast.Call) else False:
-                o.violated(q, x, "math.pow returns a float: the count is not exact above 2**53", shape_free=True)
+            if isinstance(x, ast.Call) and (txt(x.func) == "math.pow" or prog.external(q.module, x.func) in ("math.pow", "numpy.power", "numpy.float_power")):
+                o.violated(q, x, f"`{txt(x.func)}` is {prog.external(q.module, x.func) or 'math.pow'} here (imported over the builtin): it computes in floats, so the count is not exact "
+                                 "above 2**53 even when converted back with int()", shape_free=True)
                 continue
             e_ = qsc.resolve(expo)
             if not (isinstance(e_, ast.BinOp) and isinstance(e_.op, ast.Sub) and txt(e_.left) == npar and isinstance(astx.const_value(e_.right), int) and astx.const_value(e_.right) >= 1):
